@@ -13,7 +13,7 @@ def sv(stakes):
     return "SV == <<" + ", ".join(map(str, stakes)) + ">>\n"
 
 
-def trace_cfg(n, byz, max_slot, invs, extra_consts=""):
+def trace_cfg(n, byz, max_slot, invs, extra_consts="", init="TraceInit", nxt="TraceNext"):
     b = "{" + ", ".join(map(str, byz)) + "}"
     return f"""CONSTANTS
   N = {n}
@@ -21,8 +21,8 @@ def trace_cfg(n, byz, max_slot, invs, extra_consts=""):
   Byz = {b}
   W = 4
   MaxSlot = {max_slot}
-{extra_consts}INIT TraceInit
-NEXT TraceNext
+{extra_consts}INIT {init}
+NEXT {nxt}
 CHECK_DEADLOCK FALSE
 INVARIANTS {" ".join(invs)}
 POSTCONDITION TraceAccepted
@@ -54,7 +54,8 @@ def validate(ctx, name, trace, stakes, byz, module="Trace_Abs", invs=TRACE_INVS,
             if m:
                 max_slot = max(max_slot, int(m.group(1)))
     max_slot = ((max_slot // 4) + 2) * 4 - 1
-    r = ctx.tlc(name, module, trace_cfg(len(stakes), byz, max_slot, invs, extra_consts),
+    init, nxt = ("PInit", "PNext") if module == "Trace_Progress" else ("TraceInit", "TraceNext")
+    r = ctx.tlc(name, module, trace_cfg(len(stakes), byz, max_slot, invs, extra_consts, init, nxt),
                 sv(stakes) + extra_defs, workers=1, timeout=timeout, heap="6g", dfs=True,
                 env={"TRACE": trace}, expect_violation="any")
     if r.error and r.error != "timeout" and "Postcondition" not in r.tail:
